@@ -72,3 +72,73 @@ Theorem C09_primitive_equivariance_partial : forall (T1 T2 : Type) (g : T1 -> T2
   = map_out g (out_of (primitive_with K1 p meth (st_new T1) (d_new T1 0) m n)).
 Proof. exact primitive_equivariant. Qed.
 Print Assumptions C09_primitive_equivariance_partial.
+
+(* ---- all methods, all entry points, UNCONDITIONALLY, in an idealised binary
+   floating-point arithmetic (Proofs/XReal.v): radix 2, any precision p >= 1,
+   round to nearest even, unbounded exponent range (Flocq's FLX format on the
+   reals), infinite sentinel for infinity()/max_value().  Scaling every input by
+   2^e (any integer e) leaves labels, sizes, order and panics unchanged and
+   multiplies every reported dissimilarity by exactly 2^e; the matrix left
+   behind is scaled by 2^e (by 4^e for the methods working on squares).
+   The idealisation leaves out exactly overflow and underflow. *)
+Require Import KV.Model.Condensed KV.Proofs.XReal.
+From Coq Require Import Reals ZArith Lra.
+From Flocq Require Import Core.
+
+(* the carrier, pinned *)
+Theorem C09_XF_def : forall prec : Z,
+  XF prec =
+  {| f_ltb := x_ltb; f_eqb := x_eqb;
+     f_add := xlift2 (fun x y => rnd prec (x + y)%R); f_sub := xlift2 (fun x y => rnd prec (x - y)%R);
+     f_mul := xlift2 (fun x y => rnd prec (x * y)%R); f_div := xlift2 (fun x y => rnd prec (x / y)%R);
+     f_sqrt := xlift1 (fun x => rnd prec (sqrt x)); f_abs := xlift1 Rabs;
+     f_of_nat := fun n => Some (rnd prec (INR n));
+     f_half := Some (/ 2)%R; f_quarter := Some (/ 4)%R;
+     f_inf := None; f_max := None |}
+  /\ (forall x, rnd prec x = round radix2 (FLX_exp prec) ZnearestE x)
+  /\ (forall e x, sc e (Some x) = Some (x * bpow radix2 e)%R) /\ (forall e, sc e None = None).
+Proof. intros; repeat split. Qed.
+Print Assumptions C09_XF_def.
+
+Theorem C09_scale_out_def : forall e eM (r : res (dend XReal.xr * list XReal.xr)),
+  scale_out e eM r =
+  match r with
+  | Ok (d, m) => Ok ({| d_steps := map (fun s => {| s_c1 := s_c1 s; s_c2 := s_c2 s; s_dis := sc e (s_dis s); s_size := s_size s |}) (d_steps d);
+                       d_obs := d_obs d |}, map (sc eM) m)
+  | Panic k => Panic k
+  | OutOfFuel => OutOfFuel
+  end.
+Proof. intros e eM [[d m]| |]; reflexivity. Qed.
+Print Assumptions C09_scale_out_def.
+
+Theorem C09_scale_equivariance_unbounded_exponent : forall (prec : Z), Prec_gt_0 prec ->
+  forall (p : profile) (a : algo) (meth : method) (e : Z)
+    (s1 : lstate XReal.xr) (d1 : dend XReal.xr) (s2 : lstate XReal.xr) (d2 : dend XReal.xr) (m : list XReal.xr) (n : N),
+  out_of (run_with (XF prec) p a meth s1 d1 (map (sc e) m) n)
+  = scale_out e (match a with AMst => e | _ => if on_squares meth then (2 * e)%Z else e end)
+      (out_of (run_with (XF prec) p a meth s2 d2 m n)).
+Proof. intros prec _. exact (@scale_equivariance prec). Qed.
+Print Assumptions C09_scale_equivariance_unbounded_exponent.
+
+(* the ingredients: rounding commutes with scaling; every update formula
+   (regenerated from src/method.rs: Gen/Formulas.v) is homogeneous of degree 1
+   in the three dissimilarities and of degree 0 in everything else - an absolute
+   constant, threshold or tolerance in a formula makes `deg` fail *)
+Theorem C09_round_scales : forall (prec : Z), Prec_gt_0 prec ->
+  forall x e, rnd prec (x * bpow radix2 e) = (rnd prec x * bpow radix2 e)%R.
+Proof. intros prec _. exact (@rnd_scale prec). Qed.
+Print Assumptions C09_round_scales.
+
+Theorem C09_formulas_homogeneous : forall meth, deg (formula meth) = Some 1.
+Proof. exact formulas_degree_one. Qed.
+Print Assumptions C09_formulas_homogeneous.
+
+Theorem C09_update_scales : forall (prec : Z), Prec_gt_0 prec ->
+  forall meth k a b md sa sb sx,
+  upd_of (XF prec) meth (sc k a) (sc k b) (sc k md) sa sb sx = sc k (upd_of (XF prec) meth a b md sa sb sx).
+Proof. intros prec _. exact (@upd_scale prec). Qed.
+Print Assumptions C09_update_scales.
+
+(* scaling is not the identity: the statement is not vacuous *)
+Example C09_sc_example : sc 1 (Some 3%R) = Some 6%R.
+Proof. cbn. f_equal. lra. Qed.
